@@ -50,6 +50,13 @@ impl Default for Ctx {
         Ctx(0)
     }
 }
+/// as for `D3`: an inherent `default()` that is not the `Default` impl (`<Ctx>::default()` finds this one)
+impl Ctx {
+    #[allow(clippy::should_implement_trait)]
+    pub fn default() -> Self {
+        Ctx(99)
+    }
+}
 impl Drop for Ctx {
     fn drop(&mut self) {
         let id = self.0;
